@@ -1,13 +1,27 @@
 """C03 — best_solution is the optimum of the final generation in the task's direction (S-select + S-loop)."""
 from . import C04, C16
 
-ASSUMPTIONS = C16.ASSUMPTIONS[:1] + ["final generations of the 84 real optimizers are checked by the trace suite (C01 run), scripted and permuted ones here"]
+ASSUMPTIONS = C16.ASSUMPTIONS[:1] + ["final generations of the real optimizers are judged here on serial and pooled runs (permuted completion orders), scripted ones through S-loop"]
 
 
 def run(ctx):
     ctx.prove(["PvModel.Props.C03"])
     C16.run_suite(ctx, only_best=True)
     C04.run_suite(ctx, "C03")
+    # final generations of real optimizers, serial and pooled (the pool returns the population in completion order)
+    from .. import trace, jobs, oracles, optimizers
+    from ..par import pmap
+    rng = ctx.rng
+    js = jobs.make_jobs(rng, optimizers.names(), ["cont-sym", "cont", "disc", "binary"], 3 if not ctx.thorough else 12, modes=("serial", "thread", "thread", "process"),
+                        max_cycles_choices=(1, 2, 3), trace_events=False)
+    for j in js:
+        if j["mode"] != "serial":
+            j["workers"] = rng.choice([2, 3, 4, 8])
+            j["pool_perm"] = rng.randrange(10 ** 6)
+    results = pmap(trace.run_traced, js, jobs=8)
+    for r in results:
+        ctx.case(repr(oracles.job_key(r["job"])), nontrivial="result" in r, kind=f"final-generation:{r['job']['mode']}:{'ok' if 'result' in r else 'raised'}")
+    oracles.check_c03(ctx, results)
 
 
 def replay(case):
